@@ -17,6 +17,30 @@ def closure(ctx, exe, tag, w, maxlen, props):
     impl_phase(ctx, "impl-" + tag, exe, ["explore"], [maxlen, 1], "TraceStr", LT, consts(w), props, expect_states=r.distinct)
 
 
+NAMES = ["setstr", "insch", "appch", "insstrn", "insstr", "appstr", "appstrn", "ins", "app", "erase", "resize", "reserve",
+         "clear", "swap", "substr", "at", "findch", "findstr", "find", "cmpstr", "cmp", "stat"]
+ARGS = {0: ["lit"], 5: ["lit"], 8: ["lit"], 13: ["lit"], 19: ["lit"], 20: ["lit"], 1: ["pos", "cnt", "c"], 2: ["cnt", "c"],
+        3: ["pos", "lit", "cnt"], 4: ["pos", "lit"], 7: ["pos", "lit"], 6: ["lit", "cnt"], 9: ["pos", "cnt"], 10: ["t"], 11: ["t"],
+        15: ["t"], 14: ["pos", "cnt", "lit"], 16: ["c", "pos"], 17: ["lit", "pos"], 18: ["lit", "pos"], 12: [], 21: []}
+
+
+def str_line(o):
+    k = NAMES.index(o["op"])
+    a = [0] * 6
+    for i, f in enumerate(ARGS[k]):
+        v = o[f]
+        a[i] = ((1000 if v["k"] == "max" else 0) + v["n"]) if isinstance(v, dict) else int(v)
+    a[5] = 1 if o.get("fail") else 0
+    return f"{k} " + " ".join(map(str, a))
+
+
+def generated(ctx, exe, tag, w, maxlen, depth, num, props):
+    """spec -> code: walks of the Str machine (its own OpSet: positions to size+1, huge counts, failing allocations;
+    aborting calls are left to the closure) chosen by TLC's simulator, replayed into the real string code"""
+    gen_replay(ctx, tag, "GenStr", LT, consts(w) + f"\n  MaxLen = {maxlen}", depth, num, str_line, exe, [maxlen, 1],
+               "TraceStr", consts(w), props)
+
+
 def run(ctx):
     props = {ctx.pid}
     narrow = build(ctx, "drv_str", "drv_str.c", LIB, wrap=WRAP)
@@ -24,12 +48,16 @@ def run(ctx):
     if ctx.quick:
         closure(ctx, narrow, "n3", 1, 3, props)
         closure(ctx, wide, "w2", 4, 2, props)
+        generated(ctx, narrow, "gen-n8", 1, 8, 24, 3, props)
+        generated(ctx, wide, "gen-w6", 4, 6, 24, 2, props)
         steps, ml = 2500, 120
     else:
         closure(ctx, narrow, "n4", 1, 4, props)
         closure(ctx, wide, "w3", 4, 3, props)
         # objects set up with the CSTL_*_INITIALIZER macros instead of the init functions: same closure, same model
         closure(ctx, build(ctx, "drv_str_macro", "drv_str.c", LIB, wrap=WRAP, defs=["USE_INITIALIZER"]), "n3-macro", 1, 3, props)
+        generated(ctx, narrow, "gen-n12", 1, 12, 40, 25, props)
+        generated(ctx, wide, "gen-w10", 4, 10, 40, 15, props)
         steps, ml = 15000, 400
     impl_phase(ctx, "rand-n", narrow, ["random", ctx.seed, steps, 2], [ml, 1], "TraceStr", LT, consts(1), props)
     impl_phase(ctx, "rand-w", wide, ["random", ctx.seed + 1, steps, 2], [ml, 1], "TraceStr", LT, consts(4), props)
